@@ -382,7 +382,8 @@ pub proof fn lemma_rt_seq_deep<V: RoundTrip>(vs: Seq<V>, pos: nat, rest: Seq<u8>
 // =========================================================================
 
 pub uninterp spec fn bytes_of<V>(v: V) -> Seq<u8>;
-pub uninterp spec fn bytes_of_seq<V>(vs: Seq<V>) -> Seq<u8>;
+/// the same memory image the readers decode (deser_impls.tpl)
+pub open spec fn bytes_of_seq<V>(vs: Seq<V>) -> Seq<u8> { image_seq::<V>(vs) }
 
 #[verifier::external_body]
 pub fn assumed_image<'a, V>(value: &'a V) -> (r: &'a [u8])
